@@ -2,7 +2,7 @@
 
 R1 public frontier (dominance + abstract table), R2 dispatch exhaustiveness (decision table of _type_based_yield),
 R3 removal / base / value rules (decision tables), R4 skip-don't-abort (alias dereference discipline in diff.py),
-R5 registries and CLI exit code.
+R5 registries and CLI exit code, R6 is_public table, R7 compatible additions, R8 explain() totality table.
 """
 
 from __future__ import annotations
@@ -10,7 +10,7 @@ from __future__ import annotations
 import ast
 import itertools
 
-from sa.absint import Interp, Obj, Raised, Sym
+from sa.absint import Interp, Obj, Raised, Sym, lazy
 from sa.aliasderef import AliasDeref, catches_both, enclosing_catch
 from sa.callgraph import CallGraph
 from sa.cfg import implied
@@ -168,7 +168,7 @@ def run(prog: Program, ctx: Ctx) -> None:  # noqa: PLR0912,PLR0915
     ctx.rule("R4", "no alias error escapes the comparison: in diff.py every dereference of a possibly-alias member is dominated by "
                    "`not x.is_alias`, handled for both AliasResolutionError and CyclicAliasError, or tabled with a reason")
     ad = AliasDeref(prog, cg)
-    scope = [f for f in prog.functions.values() if f.module.name == D and f.cls is None]
+    scope = [f for f in prog.functions.values() if f.module.name == D]
     # keys use canonical names (sa.util.canon_names: parameters p0.., other bound names v0.. by first binding), so renaming variables changes nothing
     TABLED = {
         (f"{D}._member_incompatibilities", "p0.all_members"): "walk root: called with modules/classes from the non-alias arms of the dispatch (checked below)",
@@ -185,7 +185,15 @@ def run(prog: Program, ctx: Ctx) -> None:  # noqa: PLR0912,PLR0915
         (f"{D}._attribute_incompatibilities", "p1.value"): "same",
         (f"{D}._member_incompatibilities", "v1.is_module"): "short-circuited by `not old_member.is_alias and ...`",
     }
-    sites = ad.scan(scope, TABLED)
+    PARENT = "the reported alias sits in a loaded tree: its parent is the object whose members were walked (a non-alias arm of the dispatch, or the caller's resolved root)"
+    for helper, attr in (("_filepath", "filepath"), ("_relative_filepath", "relative_filepath"), ("_relative_package_filepath", "relative_package_filepath"),
+                         ("_module_path", "module")):
+        TABLED[(f"{D}.Breakage.{helper}", f"self.obj.parent.{attr}")] = PARENT
+    sites = ad.scan(scope, TABLED, object_may_be_alias=True)  # in diff.py members typed `Object` are routinely aliases (re-exports)
+    # Methods of the Breakage classes: `self.obj` is the reported member (declared `Object`, routinely an alias).  `old_value` / `new_value` are
+    # declared `Any`; what the walk stores there (parameters, kinds, expressions, strings) is exercised by the totality table R8 instead of being
+    # guessed here from untyped receivers.
+    sites = [st for st in sites if st.fn.cls is None or st.receiver == "self.obj" or st.receiver.startswith("self.obj.")]
     for st in sites:
         ctx.ob("R4", key(st.fn, f"deref:{canon_text(st.fn, st.node)}"), st.status != "OPEN",
                f"{st.status}: {st.reason}" if st.status != "OPEN" else st.reason + ": the error would abort find_breaking_changes", where(st.fn, st.node))
@@ -327,3 +335,54 @@ def run(prog: Program, ctx: Ctx) -> None:  # noqa: PLR0912,PLR0915
                 ctx.ob("R7", f"compatible|{_fmt(old)} -> {_fmt(new)}", not ys,
                        f"{_fmt(old)} -> {_fmt(new)} keeps every existing call valid" + (", nothing reported" if not ys else f", yet {ys} is reported"), where(tbl.fn))
     ctx.expect_min("R7", n7, 20)
+
+    # ------------------------------------------------------------------ R8 every breakage the walk constructs can be explained
+    ctx.rule("R8", "Breakage.explain(style) returns for every style, every breakage class and the payloads the walk stores (parameters, kinds, "
+                   "expression or string bases, values), also when the reported object is an unresolvable re-export: the report names the alias's "
+                   "own public path and never touches its target")
+    from pathlib import PurePosixPath
+
+    it8 = Interp(prog)
+
+    def boom(_i, _o):
+        raise Raised("AliasResolutionError")
+
+    def tree_obj(path: str, file: str) -> Obj:
+        mod = Obj(None, {"path": "pkg", "__closed__": True})
+        return Obj(None, {"is_alias": False, "path": path, "canonical_path": path, "module": mod, "lineno": 7, "filepath": PurePosixPath("/w") / file,
+                          "relative_filepath": PurePosixPath(file), "relative_package_filepath": PurePosixPath(file), "__closed__": True}, label=path)
+
+    parent = tree_obj("pkg", "pkg/__init__.py")
+    proxied = ("filepath", "relative_filepath", "relative_package_filepath", "module", "canonical_path", "lineno", "kind", "final_target", "target")
+    objs = {
+        "plain": tree_obj("pkg.x", "pkg/__init__.py"),
+        "unresolvable alias": Obj(None, {"is_alias": True, "path": "pkg.x", "parent": parent, "alias_lineno": 3, "__closed__": True, **{k: lazy(boom) for k in proxied}}, label="alias"),
+    }
+    pk = it8.enum_members("_griffe.enumerations.ParameterKind")
+    kd = it8.enum_members("_griffe.enumerations.Kind")
+    par = lambda: Obj(None, {"name": "a", "kind": pk[0], "default": "1", "required": False, "__closed__": True}, label="param")  # noqa: E731
+    expr = lambda n: Obj(None, {"canonical_path": n, "path": n, "__closed__": True}, label=n)  # noqa: E731
+    PAYLOADS: dict[str, list[tuple]] = {
+        "ParameterMovedBreakage": [(par(), par())], "ParameterRemovedBreakage": [(par(), None)], "ParameterChangedKindBreakage": [(par(), par())],
+        "ParameterChangedDefaultBreakage": [(par(), par())], "ParameterChangedRequiredBreakage": [(par(), par())], "ParameterAddedRequiredBreakage": [(None, par())],
+        "ReturnChangedTypeBreakage": [("int", "str"), (None, "str")], "ObjectRemovedBreakage": [("self", None)], "ObjectChangedKindBreakage": [(kd[0], kd[1])],
+        "AttributeChangedTypeBreakage": [("int", "str")], "AttributeChangedValueBreakage": [("1", "2"), ("1", "unset")],
+        "ClassRemovedBaseBreakage": [([expr("pkg.A"), expr("pkg.B")], [expr("pkg.A")]), (["builtins.dict", "builtins.object"], ["builtins.dict"]), ([expr("pkg.A")], [])],
+    }
+    explain = prog.lookup_method(base, "explain")[0]
+    styles = it8.enum_members("_griffe.enumerations.ExplanationStyle")
+    n8 = 0
+    for c in prog.subclasses(base):
+        for pi, (ov, nv) in enumerate(PAYLOADS.get(c.name, [])):
+            for oname, o in objs.items():
+                b = it8.new(c.qualname, obj=o, old_value=o if ov == "self" else ov, new_value=nv, details="", __closed__=True)
+                for st_ in styles:
+                    n8 += 1
+                    try:
+                        out8 = it8.call(explain, b, st_)
+                        good, got8 = isinstance(out8, str) and "x" in out8, repr(out8)[:80]
+                    except Raised as r:
+                        good, got8 = False, f"raises {r.exc}"
+                    ctx.ob("R8", f"explain|{c.name}|payload{pi}|{oname}|{st_.name}", good,
+                           f"{c.name} against a {oname} object, {st_.name}: the explanation is produced and names the reported path `x`; got {got8}", where(explain))
+    ctx.expect_min("R8", n8, 100)
